@@ -507,6 +507,10 @@ ADAPTORS = {
     "std::result::Result::<T, E>::map": "res_map",
     "std::result::Result::<T, E>::and_then": "res_and_then",
     "std::result::Result::<T, E>::unwrap_or_else": "res_unwrap_or_else",
+    "std::result::Result::<T, E>::or_else": "res_or_else",
+    "std::result::Result::<T, E>::map_or_else": "res_map_or_else",
+    "std::result::Result::<T, E>::map_or": "res_map_or",
+    "std::option::Option::<T>::or_else": "opt_or_else",
 }
 ITER_MAP = "std::iter::Iterator::map"
 CLOSURE_CALLS = ("std::ops::Fn::call", "std::ops::FnMut::call_mut", "std::ops::FnOnce::call_once")
@@ -931,6 +935,31 @@ class Desugar:
         self._two_way(body, blk, t, RES,
                       lambda X, done: done({"k": "use", "op": _payload(X, "Ok")}),
                       lambda X, done: self._call_then(body, blk, t, f, [_payload(X, "Err")], lambda R: {"k": "use", "op": _mv(R)}))
+
+    def d_res_or_else(self, body, blk, t, marks):
+        f = self.need_callable(body, t["args"][1], marks)
+        self._two_way(body, blk, t, RES,
+                      lambda X, done: done(_agg(RES, "Ok", [_payload(X, "Ok")])),
+                      lambda X, done: self._call_then(body, blk, t, f, [_payload(X, "Err")], lambda R: {"k": "use", "op": _mv(R)}))
+
+    def d_res_map_or_else(self, body, blk, t, marks):
+        d = self.need_callable(body, t["args"][1], marks)
+        f = self.need_callable(body, t["args"][2], marks)
+        self._two_way(body, blk, t, RES,
+                      lambda X, done: self._call_then(body, blk, t, f, [_payload(X, "Ok")], lambda R: {"k": "use", "op": _mv(R)}),
+                      lambda X, done: self._call_then(body, blk, t, d, [_payload(X, "Err")], lambda R: {"k": "use", "op": _mv(R)}))
+
+    def d_res_map_or(self, body, blk, t, marks):
+        f = self.need_callable(body, t["args"][2], marks)
+        self._two_way(body, blk, t, RES,
+                      lambda X, done: self._call_then(body, blk, t, f, [_payload(X, "Ok")], lambda R: {"k": "use", "op": _mv(R)}),
+                      lambda X, done: done({"k": "use", "op": t["args"][1]}))
+
+    def d_opt_or_else(self, body, blk, t, marks):
+        d = self.need_callable(body, t["args"][1], marks)
+        self._two_way(body, blk, t, OPT,
+                      lambda X, done: self._call_then(body, blk, t, d, [], lambda R: {"k": "use", "op": _mv(R)}),
+                      lambda X, done: done(_agg(OPT, "Some", [_payload(X, "Some")])))
 
     # ------------------------------------------------------------------ iterators
     def iter_source(self, body, operand, marks):
